@@ -419,3 +419,76 @@ def composite_arrays_of_segments(tier, rng, rep):
                         rep.case(key=(t, shape, n, cls, model), nontrivial=len(shape) >= 2, sample=inp if (t, shape, n, cls, model) == (0, (3, 3), 2, "Segment", "poincare") else None)
                         if len(rep.failures) >= 3:
                             return
+
+
+@bounded(P, "subspace_boundary_spheres", functions=[H + "Subspace.boundary_sphere_parameters", H + "Subspace.ideal_basis_coords", H + "Hyperplane.__init__", "geometry_tools/utils/core.py:sphere_through"],
+         note="the sphere in the boundary R^(n-1) of the half-space model reported for a totally geodesic subspace (from k ideal points, or a hyperplane from its normal) contains the "
+              "subspace's ideal points: the spanning points and further lightlike vectors in their span, mapped to the boundary by the closed-form chart maps")
+def subspace_boundary_spheres(tier, rng, rep):
+    N = 200 if tier == 'thorough' else 40
+    rep.rule = "n = 2, 3, 4; hyperplane as Subspace from n random ideal points (arbitrary representatives), Hyperplane from a random spacelike normal; 6 further ideal points of the subspace each"
+    rep.bound = f"{N} subspaces"
+
+    def bdry(v):
+        """boundary coordinates (half-space model, height dropped) of the ideal point with lightlike representative v"""
+        k = v[1:] / v[0]
+        hs = spec.p2h(k)             # an ideal point has equal Klein and Poincare coordinates
+        return hs[:-1]
+    for t in range(N):
+        n = 2 + t % 3
+        from_normal = t % 4 == 3
+        if from_normal:
+            while True:
+                nv = rng.normal(size=n + 1)
+                if spec.mink(nv, nv) > 0.2:
+                    break
+            S = h.Hyperplane(nv.copy())
+            basis = np.asarray(S.ideal_basis, dtype=float) if hasattr(S, "ideal_basis") else None
+            kdim = n
+        else:
+            kdim = n          # sphere_through needs n points in R^(n-1): the library computes boundary spheres of hyperplanes only and refuses the rest (GeometryError)
+            ideal = rng.normal(size=(kdim, n)); ideal /= np.linalg.norm(ideal, axis=-1, keepdims=True)
+            scale = 10 ** rng.uniform(-1, 1, size=(kdim, 1)) * rng.choice([-1, 1], size=(kdim, 1)) if t % 2 else np.ones((kdim, 1))
+            basis = scale * np.concatenate([np.ones((kdim, 1)), ideal], axis=1)
+            S = h.Subspace(h.IdealPoint(basis.copy()))
+            nv = None
+        inp = {"n": n, "from_normal": bool(from_normal), "normal": None if nv is None else nv.tolist(), "ideal_points": None if from_normal else basis.tolist()}
+
+        def body():
+            with np.errstate(all='ignore'):
+                c, r = S.boundary_sphere_parameters()
+            c, r = np.asarray(c, dtype=float).reshape(-1), float(np.asarray(r).reshape(()))
+            if not (np.all(np.isfinite(c)) and np.isfinite(r)) or r > 1e4:
+                return                   # the subspace passes through the half-space's point at infinity: its boundary is a plane
+            # ideal points of the subspace, independently
+            pts = []
+            if from_normal:
+                # lightlike vectors orthogonal to the normal: x = w + s e with w, e orthogonal to nv
+                Jn = nv * np.array([-1.0] + [1.0] * n)
+                for _ in range(8):
+                    a_, b_ = rng.normal(size=n + 1), rng.normal(size=n + 1)
+                    a_ = a_ - nv * (a_ @ Jn) / (nv @ Jn); b_ = b_ - nv * (b_ @ Jn) / (nv @ Jn)
+                    A_, B_, C_ = spec.mink(b_, b_), 2 * spec.mink(a_, b_), spec.mink(a_, a_)
+                    disc = B_ * B_ - 4 * A_ * C_
+                    if disc > 1e-9 and abs(A_) > 1e-9:
+                        pts.append(a_ + ((-B_ + np.sqrt(disc)) / (2 * A_)) * b_)
+            else:
+                pts = [b for b in basis]
+                for _ in range(6):
+                    a_, b_ = rng.normal(size=kdim) @ basis, rng.normal(size=kdim) @ basis
+                    A_, B_, C_ = spec.mink(b_, b_), 2 * spec.mink(a_, b_), spec.mink(a_, a_)
+                    disc = B_ * B_ - 4 * A_ * C_
+                    if disc > 1e-9 and abs(A_) > 1e-9:
+                        pts.append(a_ + ((-B_ + np.sqrt(disc)) / (2 * A_)) * b_)
+            for v in pts:
+                with np.errstate(all='ignore'):
+                    bq = bdry(v)
+                if not np.all(np.isfinite(bq)) or np.max(np.abs(bq)) > 1e3:
+                    continue
+                d = np.linalg.norm(bq - c)
+                if not abs(d - r) <= 1e-5 * (1 + r + np.max(np.abs(bq))) ** 2:
+                    rep.fail("boundary_sphere_contains_ideal_points", f"an ideal point of the subspace at distance {d} from the centre, radius {r}", {**inp, "ideal_point": np.asarray(v).tolist()}); return
+        rep.attempt("subspace_sphere_runs", inp, body)
+        rep.case(key=(t,), nontrivial=kdim >= 3, sample=inp if t == 1 else None)
+        if len(rep.failures) >= 3:
+            return
